@@ -414,7 +414,11 @@ func (sc *C14Scenario) decoy(r *simrt.Rand) *C14Scenario {
 	case 1:
 		d.HZ = max64(5, min64(35, sc.HZ+[]int64{-1, 1}[r.Intn(2)]))
 	case 2:
-		d.Radius = sc.Radius * []float64{0, 0.5, 1.5}[r.Intn(3)]
+		if sc.Radius == 0 {
+			d.Radius = []float64{0.0004, 0.00049, 0.3 * voxelWidthM(max64(sc.HZ, 5), sc.Start[1])}[r.Intn(3)]
+		} else {
+			d.Radius = []float64{0, sc.Radius * 0.5, sc.Radius * 1.5, sc.Radius + 0.0003, math.Max(0, sc.Radius-0.0003)}[r.Intn(5)]
+		}
 	case 3:
 		d.End[2] += 3 * float64(pow2(25)) / float64(pow2(sc.VZ))
 	default:
@@ -422,6 +426,9 @@ func (sc *C14Scenario) decoy(r *simrt.Rand) *C14Scenario {
 	}
 	if !d.valid() || d.Radius > sc.Radius*1.5+1e-9 && sc.Radius > 0 {
 		return nil
+	}
+	if d.HZ < 8 && d.Radius > 0.5*voxelWidthM(d.HZ, 60) {
+		return nil // coarse grids: the layer fit does not terminate for large clearances
 	}
 	return &d
 }
